@@ -203,6 +203,20 @@ fn dump_adt<'tcx>(tcx: TyCtxt<'tcx>, did: DefId) -> J {
             fo.set("name", J::s(f.name.as_str()));
             let t = tcx.type_of(f.did).instantiate_identity().skip_norm_wip();
             fo.set("ty", J::s(&ty_str(t)));
+            // helper attributes of derive macros (serde(skip), serde(default), ...) decide what is persisted
+            let mut attrs = Vec::new();
+            if let Some(ld) = f.did.as_local() {
+                let hid = tcx.local_def_id_to_hir_id(ld);
+                for a in tcx.hir_attrs(hid) {
+                    let d = format!("{:?}", a);
+                    if d.contains("serde") {
+                        attrs.push(J::s(&d));
+                    }
+                }
+            }
+            if !attrs.is_empty() {
+                fo.set("serde_attrs", J::Arr(attrs));
+            }
             fs.push(fo);
         }
         vo.set("fields", J::Arr(fs));
